@@ -124,6 +124,18 @@ Conds ==
 
 Written == Scalars \cup Lists \cup Conds
 
+(* Argument pairs: the call "Pairs" of the full level takes exactly two    *)
+(* arguments from this reduced universe, so that every ordered pair of     *)
+(* value kinds is written once (parser state leaking from one argument to  *)
+(* the next: open list, pending condition operator, pending field).        *)
+PairWritten ==
+  {IntV(0), IntV(-7), FloatV("f3"), BoolV(TRUE), NullV, StrV("s1", "dq"), StrV("s2", "sq"),
+   BareV("a-b_c:9"), TsV(T1, "dq"),
+   ListV(<<IntV(1), IntV(-7)>>), ListV(<<StrV("s1", "dq"), NullV>>),
+   CondV("<", IntV(7)), CondV(">=", FloatV("f1")), CondV("==", StrV("s1", "dq")), CondV("!=", NullV),
+   CondV("><", ListV(<<IntV(-7), IntV(7)>>)), BtwcV(-7, "<", "<=", 7)}
+PairKeys == {"f", "g"}
+
 (* keyword-argument names: field names, and the reserved names the grammar *)
 (* admits in the generic call form                                         *)
 Keys == IF Small THEN {"f", "g"} ELSE {"f", "Foo_1-b", "_row", "from"}
@@ -180,7 +192,9 @@ AllParseOpenings ==
           : key \in (Keys \ {"from", "_row"}), w \in RangeVals, tp \in RangeTsPairs, lb \in RangeLabels}
 
 ParseOpenings ==
-  IF Tiny THEN {o \in AllParseOpenings : o.form \in {"gen", "Set", "Store", "TopN"}} ELSE AllParseOpenings
+  IF Level = "full" /\ MaxKw = 1
+    THEN AllParseOpenings \cup {Opening("gen", "Pairs", <<>>, NoTs, 2, 2, 0, 0)}
+  ELSE IF Tiny THEN {o \in AllParseOpenings : o.form \in {"gen", "Set", "Store", "TopN"}} ELSE AllParseOpenings
 
 ---------------------------------------------------------------------------
 (* Forwarded values (mode "fwd"): the Go values found in the calls a node  *)
@@ -243,7 +257,7 @@ KwValues == IF Mode = "fwd" THEN FwdValues ELSE Written
 ArgCallNames == IF Mode = "fwd" THEN {"Row", "Rows"} ELSE IF Tiny THEN {"Row"} ELSE {"Row", "Rows2", "Union"}
 
 Frame(o) == [minKw |-> o.minKw, maxKw |-> o.maxKw, minCh |-> o.minCh, maxCh |-> o.maxCh,
-             nkw |-> 0, nch |-> 0,
+             nkw |-> 0, nch |-> 0, pair |-> (o.name = "Pairs"),
              \* the reserved names the positional part already fills cannot be repeated
              \* as keyword arguments (the parser rejects a duplicate argument)
              used |-> {o.pos[i].key : i \in DOMAIN o.pos}
@@ -283,7 +297,8 @@ OpenArg ==
 Kw ==
   /\ stack # <<>>
   /\ Top.nkw < Top.maxKw /\ Top.nch >= Top.minCh
-  /\ \E key \in KwKeys \ Top.used, w \in KwValues :
+  /\ \E key \in (IF Top.pair THEN PairKeys ELSE KwKeys) \ Top.used,
+        w \in (IF Top.pair THEN PairWritten ELSE KwValues) :
        /\ (w.k = "btwc") => key \notin {"_row", "from"}      \* condfield is a plain field name
        /\ hist' = Append(hist, [op |-> "kw", key |-> key, w |-> w,
                                 exp |-> IF Mode = "fwd" THEN w ELSE Exp(w)])
